@@ -422,7 +422,15 @@ func (env *Zlisp) ImportBaseTypes() {
 		env.AddGlobal(e.RegisteredName, e)
 	}
 
+	global := env.linearstack.elements[0].(*Scope)
 	for _, e := range GoStructRegistry.Userdef {
+		// The registry is shared by all interpreters of the process, and
+		// record names get registered as a side effect of making records
+		// ("field" by the first struct declaration, any Atype by a decode).
+		// Such a name must not replace a function of this interpreter.
+		if _, isFunc := global.Map[env.MakeSymbol(e.RegisteredName).number].(*SexpFunction); isFunc {
+			continue
+		}
 		env.AddGlobal(e.RegisteredName, e)
 	}
 }
